@@ -21,7 +21,10 @@ AfeSeq(ps, ids) == IF ids = <<>> THEN <<>>
 Abs(r) ==
     LET ps == r.ps IN
     <<ps.mode, IF ps.mode = "text" THEN ps.orig ELSE "", IF ps.mode = "inTableText" THEN ps.pttOrig ELSE "",
-      LastK(NameSeq(ps, ps.open), 2), LastK(AfeSeq(ps, ps.afe), 4), ps.form # 0, r.ts.st>>
+      LastK(NameSeq(ps, ps.open), 2), LastK(AfeSeq(ps, ps.afe), 4), ps.form # 0, r.ts.st,
+      \* the pending "drop the next LF" request together with whether the current node already has content
+      IF ps.dropLF /\ ps.open # <<>> THEN <<HasContent(ps.nodes, Cur(ps))>> ELSE <<>>,
+      ps.ptt # <<>>>>
 View == <<cx, Abs(Paused)>>
 ThmExport == PrintT(ToJson([src |-> src, cx |-> cx, mode |-> Paused.ps.mode]))
 =============================================================================
